@@ -3,7 +3,8 @@
  * real code : floor1_look (neighbour tables, sort index), floor1_inverse1, render_point, floor1_free_look (lib/floor1.c)
  * cut       : vorbis_book_decode -> returns an arbitrary entry number 0..2^24-1 or end of packet (-1) and records which book was asked
  *             (Huffman walk: its own harness); _vorbis_block_alloc -> constant-size malloc of the checked request; packet bits: M-bitsrc
- * config    : -DPARTS partitions, all of class 0, -DCDIM class dimension, -DCSUB subclass bits => POSTS=PARTS*CDIM+2 (shape is
+ * config    : -DPL k: concrete post layout k (value oracle on); without it the positions are symbolic (look tables, book order and memory safety only);
+ *             -DPARTS partitions, all of class 0, -DCDIM class dimension, -DCSUB subclass bits => POSTS=PARTS*CDIM+2 (shape is
  *             configuration, every VALUE symbolic: post positions (distinct, < 2^RB), multiplier 1..4, master/sub book numbers incl. -1)
  * assert    : look: posts, quant_q, forward/reverse index sort the posts, lo/hi neighbour = spec definition;
  *             inverse1: request = posts ints; the books consulted are, in order, the master book (if subclass bits) then the sub book
@@ -52,7 +53,12 @@ void harness(void){
   info.class_dim[0]=CDIM; info.class_subs[0]=CSUB; info.class_book[0]=ND_irange(0,NBK-1);
   for(int k=0;k<(1<<CSUB);k++) info.class_subbook[0][k]=ND_irange(-1,NBK-1);
   info.mult=ND_irange(1,4); info.postlist[0]=0; info.postlist[1]=1<<RB;
+#ifdef PL
+  /* value-oracle jobs: post positions are configuration (the prediction divides by position differences: symbolic divisors on both sides did not finish in 10 min) */
+  { static const int L[3][8]={{32,16,48,8,56,24,40,4},{10,50,30,5,60,20,45,1},{63,1,62,2,61,3,33,31}}; for(int i=2;i<POSTS;i++) info.postlist[i]=L[PL][i-2]; }
+#else
   for(int i=2;i<POSTS;i++){ info.postlist[i]=ND_irange(1,(1<<RB)-1); for(int j=2;j<i;j++) ASSUME(info.postlist[i]!=info.postlist[j]); }   /* V_floor1: distinct posts */
+#endif
   vorbis_look_floor1 *look=(vorbis_look_floor1 *)floor1_look(&vd,(vorbis_info_floor *)&info);
   int range= info.mult==1?256: info.mult==2?128: info.mult==3?86:64;
   CHECK(look->posts==POSTS && look->quant_q==range && look->n==(1<<RB) && look->vi==&info,"look: post count, amplitude range (spec 7.2.4 step 1), n");
@@ -69,6 +75,7 @@ void harness(void){
         if(bk>=0){ CHECK(r<g_k && g_book[r]==bk,"sub book selected by the next subclass digit of the master value (7.2.3)"); Y[off+j]=(int)g_val[r++]; } else Y[off+j]=0; }
       off+=CDIM; }
     CHECK(r==g_k,"no further codeword is read");
+#ifdef PL
     /* spec 7.2.4 step 1 */
     int F[POSTS], flag[POSTS], inrange=1; F[0]=Y[0]; F[1]=Y[1]; flag[0]=flag[1]=1; if(F[0]<0||F[1]<0) inrange=0;
     for(int i=2;i<POSTS && inrange;i++){ int lo=look->loneighbor[i-2], hi=look->hineighbor[i-2];
@@ -83,6 +90,9 @@ void harness(void){
     if(inrange){ for(int i=0;i<POSTS;i++){ CHECK((fit[i]&0x7fff)==F[i],"unwrapped amplitude = spec final_Y (7.2.4 step 1)"); CHECK(((fit[i]&0x8000)==0)==(flag[i]==1),"step2 flag (bit 15 clear = used) = spec flag"); }
       WITNESS_AT("decoded, values in range"); int any=0; for(int i=2;i<POSTS;i++) if(!flag[i]) any=1; if(any) WITNESS_AT("a post declined (flag unset)"); }
     else WITNESS_AT("decoded, out-of-range amplitudes");
+#else
+    WITNESS_AT("decoded");
+#endif
   } else WITNESS_AT("unused or end of packet");
   if(g_vec) free(g_vec);
   floor1_free_look((vorbis_look_floor *)look);
